@@ -35,7 +35,9 @@ NT == [ a |-> <<97>>, b |-> <<98>>, c |-> <<99>>, d |-> <<100>>, e |-> <<101>>,
         t4 |-> <<116,52>>, t5 |-> <<116,53>>, nx |-> <<110,120>>, n1 |-> <<110,49>>, Items |-> <<73,116,101,109,115>>, n2 |-> <<110,50>>, n3 |-> <<110,51>>,
         k1 |-> <<107,49>>, k2 |-> <<107,50>>, k3 |-> <<107,51>>,
         m1 |-> <<109,49>>, m2 |-> <<109,50>>, b1 |-> <<98,49>>, b2 |-> <<98,50>>,
-        X |-> <<88>>, Y |-> <<89>>, Z |-> <<90>>, N |-> <<78>> ]
+        X |-> <<88>>, Y |-> <<89>>, Z |-> <<90>>, N |-> <<78>>,
+        \* path-like template names (two directories p/ and s/) for relative includes
+        pm |-> <<112,47,109>>, pb |-> <<112,47,98>>, ph |-> <<112,47,104>>, sh |-> <<115,47,104>>, sb |-> <<115,47,98>>, sm |-> <<115,47,109>> ]
 NameText(n) == NT[n]
 TextIsName(s) == \E n \in DOMAIN NT : NT[n] = s
 NameOfText(s) == CHOOSE n \in DOMAIN NT : NT[n] = s
@@ -83,6 +85,7 @@ ParamD(n, d)      == [n |-> n, hasD |-> TRUE, d |-> d]
 Import(e, al)     == [k |-> "import", e |-> e, al |-> al]
 From(e, names, als) == [k |-> "from", e |-> e, names |-> names, als |-> als]
 Apply(f, args, body) == [k |-> "apply", f |-> f, args |-> args, body |-> body]
+Spaceless(body)   == [k |-> "spaceless", body |-> body]
 Comment(c)        == [k |-> "comment", c |-> c]
 Verbatim(c)       == [k |-> "verbatim", c |-> c]
 
@@ -201,6 +204,37 @@ SplitText(s, sep, acc) ==
     ELSE IF IsPrefixOf(sep, s) THEN <<acc>> \o SplitText(Drop(s, Len(sep)), sep, <<>>)
     ELSE SplitText(Tail(s), sep, Append(acc, Head(s)))
 
+\* spaceless: white space (space, tab, LF, FF, CR) between a ">" and the next "<" is removed
+IsWs(c) == c \in {32, 9, 10, 12, 13}
+RECURSIVE WsRun(_, _), SpacelessText(_)
+WsRun(s, i) == IF i <= Len(s) /\ IsWs(s[i]) THEN WsRun(s, i + 1) ELSE i      \* first index >= i that is not white space
+SpacelessText(s) ==
+    IF s = <<>> THEN <<>>
+    ELSE IF s[1] = 62 THEN
+         LET j == WsRun(s, 2) IN
+         IF j > 2 /\ j <= Len(s) /\ s[j] = 60 THEN <<62>> \o SpacelessText(SubSeq(s, j, Len(s)))
+         ELSE <<62>> \o SpacelessText(Tail(s))
+    ELSE <<s[1]>> \o SpacelessText(Tail(s))
+
+\* relative template names: "./x" and "../x" name a template relative to the directory of the template
+\* that contains the tag (path segments joined and cleaned: "." dropped, ".." removes the segment before it)
+IsRelativeName(s) == (Len(s) >= 2 /\ s[1] = 46 /\ s[2] = 47) \/ (Len(s) >= 3 /\ s[1] = 46 /\ s[2] = 46 /\ s[3] = 47)
+RECURSIVE CleanSegs(_, _), JoinSegs(_)
+CleanSegs(segs, acc) ==
+    IF segs = <<>> THEN acc
+    ELSE IF Head(segs) = <<46>> \/ Head(segs) = <<>> THEN CleanSegs(Tail(segs), acc)
+    ELSE IF Head(segs) = <<46, 46>> THEN (IF acc = <<>> \/ acc[Len(acc)] = <<46, 46>> THEN CleanSegs(Tail(segs), Append(acc, <<46, 46>>))
+                                          ELSE CleanSegs(Tail(segs), SubSeq(acc, 1, Len(acc) - 1)))
+    ELSE CleanSegs(Tail(segs), Append(acc, Head(segs)))
+JoinSegs(segs) == IF segs = <<>> THEN <<>> ELSE IF Len(segs) = 1 THEN segs[1] ELSE segs[1] \o <<47>> \o JoinSegs(Tail(segs))
+\* (a template key without an entry in NT, like "main", has no directory part)
+SelfText(n) == IF n \in DOMAIN NT THEN NT[n] ELSE <<>>
+ResolveName(selfText, s) ==
+    IF ~IsRelativeName(s) THEN s
+    ELSE LET own == SplitText(selfText, <<47>>, <<>>)
+             dir == SubSeq(own, 1, Len(own) - 1)
+         IN JoinSegs(CleanSegs(dir \o SplitText(s, <<47>>, <<>>), <<>>))
+
 \* the harness' vdump filter: a serialisation of the Go value the filter receives
 \*   N | T | F | i<int> | s<#chars>:<chars> | [e,..] | {k=v,..} sorted by the dump of k
 RECURSIVE Dump(_), DumpSeq(_), DumpPairs(_)
@@ -232,7 +266,7 @@ MergeMaps(m, ks, vs) == IF ks = <<>> THEN m ELSE MergeMaps(MapPut(m, Head(ks), H
 KnownTests == {"defined", "empty", "null", "none", "even", "odd", "iterable", "divisibleby", "sameas", "st", "stx"}
 NamedSpyFilters == [sfz |-> "f1", sfa |-> "a1"]
 BuiltinFilters == {"upper", "lower", "trim", "capitalize", "length", "first", "last", "reverse",
-                   "sort", "join", "default", "keys", "merge", "slice", "abs", "escape", "e", "split", "vdump", "round"}
+                   "sort", "join", "default", "keys", "merge", "slice", "abs", "escape", "e", "split", "vdump", "round", "number_format", "raw"}
 
 ApplyBuiltin(f, v, args, calls) ==
     CASE f = "upper" /\ v.t = "str" /\ args = <<>> -> ROk(VS(Upper(v.s)), calls)
@@ -285,8 +319,15 @@ ApplyBuiltin(f, v, args, calls) ==
                                                  ELSE IF args[2].s = <<99, 101, 105, 108>> THEN "ceil" ELSE "common") ELSE "common"
                 r == RoundDec(m, e, p, method)
             IN ROk(VD(r.m, r.e), calls)
+      [] f = "number_format" /\ v.t \in {"dec", "int"} /\ Len(args) <= 3
+                     /\ (Len(args) >= 1 => args[1].t = "int" /\ args[1].i \in 0..4)
+                     /\ (Len(args) >= 2 => args[2].t = "str") /\ (Len(args) = 3 => args[3].t = "str")
+                     /\ NumFmtDetermined(IF v.t = "int" THEN v.i ELSE v.m, IF v.t = "int" THEN 0 ELSE v.e, IF Len(args) >= 1 THEN args[1].i ELSE 0) ->
+            ROk(VS(NumFmtText(IF v.t = "int" THEN v.i ELSE v.m, IF v.t = "int" THEN 0 ELSE v.e, IF Len(args) >= 1 THEN args[1].i ELSE 0,
+                              IF Len(args) >= 2 THEN args[2].s ELSE <<46>>, IF Len(args) = 3 THEN args[3].s ELSE <<44>>)), calls)
       [] f = "split" /\ Len(args) = 1 /\ v.t = "str" /\ args[1].t = "str" /\ args[1].s # <<>> ->
             ROk(VL([i \in 1..Len(SplitText(v.s, args[1].s, <<>>)) |-> VS(SplitText(v.s, args[1].s, <<>>)[i])]), calls)
+      [] f = "raw" /\ args = <<>> -> ROk(v, calls)          \* (no automatic escaping in the fragment: the value itself)
       [] f = "vdump" /\ args = <<>> -> ROk(VS(Dump(v)), calls)
       [] f \in {"escape", "e"} /\ args = <<>> /\ Printable(v) -> ROk(VS(Escape(TextOf(v))), calls)
       [] OTHER -> RErr("frag", calls)
@@ -492,14 +533,16 @@ Eval(e, A, sc, calls) ==
                          st  == Exec(def.body, [WithSelf(A, A.chain[j]) EXCEPT !.lvl = j],
                                      [St0(sc) EXCEPT !.calls = calls])
                      IN IF ~st.ok THEN RErr(st.err, st.calls) ELSE ROk([t |-> "safe", s |-> st.out], st.calls)
-           ELSE IF e.f \in {"max", "min"} THEN
+           \* a macro visible under the name wins over a built-in function of that name (C12: a macro is the
+           \* same macro by every route, whatever it is called)
+           ELSE IF e.f \in {"max", "min"} /\ e.f \notin DOMAIN A.fm /\ ~HasMacro(A.W, A.self, e.f) THEN
                 LET as == EvalSeq(e.args, A, sc, calls) IN
                 IF ~as.ok THEN as
                 ELSE IF Len(as.v.xs) >= 1 /\ (\A i \in 1..Len(as.v.xs) : as.v.xs[i].t = "int")
                      THEN LET vals == {as.v.xs[i].i : i \in 1..Len(as.v.xs)} IN
                           ROk(VI(IF e.f = "max" THEN CHOOSE m \in vals : \A x \in vals : x <= m ELSE CHOOSE m \in vals : \A x \in vals : m <= x), as.calls)
                      ELSE RErr("frag", as.calls)
-           ELSE IF e.f = "range" THEN
+           ELSE IF e.f = "range" /\ e.f \notin DOMAIN A.fm /\ ~HasMacro(A.W, A.self, e.f) THEN
                 LET as == EvalSeq(e.args, A, sc, calls) IN
                 IF ~as.ok THEN as
                 ELSE IF Len(as.v.xs) \in {2, 3} /\ (\A i \in 1..Len(as.v.xs) : as.v.xs[i].t = "int")
@@ -583,8 +626,8 @@ ResolveChain(W, t, sc, A, calls) ==
          IF body # <<>> /\ body[1].k = "extends" THEN
               LET r == Eval(body[1].e, A, sc, calls) IN
               IF ~r.ok THEN [ok |-> FALSE, err |-> r.err, chain |-> <<>>, calls |-> r.calls]
-              ELSE IF r.v.t # "str" \/ ~TextIsName(r.v.s) THEN [ok |-> FALSE, err |-> "notfound", chain |-> <<>>, calls |-> r.calls]
-              ELSE LET up == ResolveChain(W, NameOfText(r.v.s), sc, A, r.calls) IN
+              ELSE IF r.v.t # "str" \/ ~TextIsName(ResolveName(SelfText(t), r.v.s)) THEN [ok |-> FALSE, err |-> "notfound", chain |-> <<>>, calls |-> r.calls]
+              ELSE LET up == ResolveChain(W, NameOfText(ResolveName(SelfText(t), r.v.s)), sc, A, r.calls) IN
                    IF ~up.ok THEN up
                    ELSE IF Len(up.chain) >= MaxDepth THEN [ok |-> FALSE, err |-> "frag", chain |-> <<>>, calls |-> up.calls]
                    ELSE [ok |-> TRUE, err |-> "", chain |-> <<t>> \o up.chain, calls |-> up.calls]
@@ -665,16 +708,24 @@ ExecStmt(s, A, st) ==
                 IF ~w.ok THEN StErr(st, w.err, w.calls)
                 ELSE IF w.v.t # "map" \/ (\E i \in 1..Len(w.v.ks) : w.v.ks[i].t # "str" \/ ~TextIsName(w.v.ks[i].s))
                      THEN StErr(st, "frag", w.calls)
-                ELSE IF ~TextIsName(r.v.s) \/ NameOfText(r.v.s) \notin DOMAIN A.W.tp THEN
+                ELSE LET nm == ResolveName(SelfText(A.self), r.v.s) IN
+                IF ~TextIsName(nm) \/ NameOfText(nm) \notin DOMAIN A.W.tp THEN
                         IF s.ign THEN [st EXCEPT !.calls = w.calls] ELSE StErr(st, "notfound", w.calls)
-                ELSE IF LoadErr(A.W, NameOfText(r.v.s)) # "" THEN StErr(st, LoadErr(A.W, NameOfText(r.v.s)), w.calls)
+                ELSE IF LoadErr(A.W, NameOfText(nm)) # "" THEN StErr(st, LoadErr(A.W, NameOfText(nm)), w.calls)
                 ELSE LET base == IF s.only THEN EmptyFn ELSE st.sc
                          RECURSIVE AddAll(_, _)
                          AddAll(sc0, i) == IF i > Len(w.v.ks) THEN sc0
                                            ELSE AddAll(Bind(sc0, NameOfText(w.v.ks[i].s), w.v.vs[i]), i + 1)
                          isc == AddAll(base, 1)
                          A1 == [A EXCEPT !.sb = A.sb \/ s.sbx]
-                     IN RenderTemplate(NameOfText(r.v.s), A1, isc, [st EXCEPT !.calls = w.calls])
+                     IN RenderTemplate(NameOfText(nm), A1, isc, [st EXCEPT !.calls = w.calls])
+      [] s.k = "spaceless" ->
+           \* the tag works through the spaceless filter: under a sandbox whose policy does not allow that filter the
+           \* engine leaves the body as it is; the properties say nothing about that, so such a body must not need it
+           LET inner == Exec(s.body, A, [st EXCEPT !.out = <<>>]) IN
+           IF ~inner.ok THEN [inner EXCEPT !.out = st.out]
+           ELSE IF A.sb /\ "spaceless" \notin A.W.polF /\ SpacelessText(inner.out) # inner.out THEN StErr(st, "frag", inner.calls)
+           ELSE [inner EXCEPT !.out = st.out \o SpacelessText(inner.out)]
       [] s.k = "apply" ->
            LET inner == Exec(s.body, A, [st EXCEPT !.out = <<>>]) IN
            IF ~inner.ok THEN [inner EXCEPT !.out = st.out]
